@@ -3,6 +3,7 @@
   Helper lemmas are in Proofs/C05*.lean.
 -/
 import AttrsModel.Proofs.C05Main
+import AttrsModel.Proofs.SrcFrozen
 
 namespace Attrs.C05
 open Attrs.Init
@@ -380,5 +381,34 @@ example : ∀ acc', buildFrom [] chainSpecs 0 = .ok acc' → FrozenTop acc' := f
 
 /-- non-vacuity of `C05_step` / `C05_exc_bookkeeping`: hypotheses are satisfiable -/
 example : isMutation (.del "x") = true ∧ exempt k11Witness (.del "x") = false := by decide
+
+/-! ### T1b: `_frozen_setattrs` / `_frozen_delattrs` as written in /repo's source on this run -/
+
+/-- **C05_source_frozen_setattrs**: the `__setattr__` of frozen classes, translated from the current source
+    (`Gen.frozen_setattrs`, regenerated on every run), raises FrozenInstanceError for *every* attribute name and value —
+    performing no store — except that on an instance of `BaseException` (the whole hierarchy, not only `Exception`) the
+    bookkeeping names of the T1 table `Generated.frozenExcSetNames` (`C05_exc_names_documented`) are handed to
+    `BaseException.__setattr__` with the very name and value. -/
+theorem C05_source_frozen_setattrs (env : Py.Env) (ext : Py.Ext) (self value : Py.PV) (isExc : Bool) (n : String)
+    (hext : ext "isinstance" [self, env "BaseException"] = Py.vBool isExc) :
+    Gen.frozen_setattrs env ext self (Py.vStr n) value [] =
+      if isExc && Generated.frozenExcSetNames.contains n
+      then .ok (Py.vNone, [Py.Eff.mk "BaseException.__setattr__" [self, Py.vStr n, value]])
+      else .error (.other "FrozenInstanceError") :=
+  Src.frozen_setattrs_spec env ext self value isExc n hext
+
+/-- **C05_source_frozen_delattrs**: likewise for deletion (`Generated.frozenExcDelNames`: only `__notes__`). -/
+theorem C05_source_frozen_delattrs (env : Py.Env) (ext : Py.Ext) (self : Py.PV) (isExc : Bool) (n : String)
+    (hext : ext "isinstance" [self, env "BaseException"] = Py.vBool isExc) :
+    Gen.frozen_delattrs env ext self (Py.vStr n) [] =
+      if isExc && Generated.frozenExcDelNames.contains n
+      then .ok (Py.vNone, [Py.Eff.mk "BaseException.__delattr__" [self, Py.vStr n]])
+      else .error (.other "FrozenInstanceError") :=
+  Src.frozen_delattrs_spec env ext self isExc n hext
+
+/-- both branches are inhabited: a field name on a non-exception is refused, `__cause__` on an exception is passed on -/
+example : (false && Generated.frozenExcSetNames.contains "x") = false ∧
+    (true && Generated.frozenExcSetNames.contains "__cause__") = true ∧
+    (true && Generated.frozenExcSetNames.contains "x") = false := by decide
 
 end Attrs.C05
